@@ -211,7 +211,7 @@ func ruleKeyStable(w *World, r *Report) {
 			if !okf {
 				return
 			}
-			if g.Name() == "copyConfig" && len(g.Params) == 2 && base == ssa.Value(g.Params[0]) {
+			if nm(g) == "copyConfig" && len(g.Params) == 2 && base == ssa.Value(g.Params[0]) {
 				r.OK(rule, w.InstrPos(mu), w.Name(g), "copy into dst.VariableKeyMap", "the element-wise copy into a fresh config (C08 R-COPYALL)")
 				return
 			}
